@@ -20,7 +20,12 @@ MaxNsPerByte == 2000
 VARIABLES l, nrej
 Init == l = 1 /\ nrej = 0
 
-Linear(e) == (e.ns >= MinNs => e.ns2 <= MaxRatio * e.ns) /\ e.ns2 <= MaxNsPerByte * e.n2
+\* (skipped: the run at n was already over a second, i.e. far above the per-byte bound, and the larger
+\* size was not measured)
+Linear(e) ==
+  /\ ~e.skipped
+  /\ e.ns <= MaxNsPerByte * e.n
+  /\ (e.ns >= MinNs => e.ns2 <= MaxRatio * e.ns) /\ e.ns2 <= MaxNsPerByte * e.n2
 
 Next ==
   /\ l <= NT
